@@ -525,6 +525,10 @@ func replay() {
 		manyTracks()
 		ctx.Finish("replay")
 	}
+	if m["kind"] == "two-readers" {
+		twoReaders()
+		ctx.Finish("replay")
+	}
 	file := engine.UnHex(m["file"].(string))
 	exp, err := refsmf.Parse(file, refsmf.Tolerant)
 	if err != nil {
